@@ -346,14 +346,14 @@ pub fn check(ctx: &Ctx) -> Check {
         Box::new(RandomPart {
             name: "lib-random",
             rule: "random spectra with 2..5 axes, lengths 1..6 (60% pairwise unequal), integer/real/sparse values, random axis list in random order; same oracles; non-trivial as above; distinct by (spectrum, axis list)",
-            cases: ctx.tier.pick(3000, 40_000),
+            cases: ctx.tier.pick(10_000, 150_000),
             strategy: Box::new(|| lib_strategy().boxed()),
             eval: Box::new(eval_lib),
         }),
         Box::new(RandomPart {
             name: "cli-view",
             rule: "sfs view -m/-M/--marginalize-remove on text and npy files: printed cells vs naive sum at the printed precision, -M K byte-identical to -m complement(K), duplicate/out-of-range/all axes fail cleanly; non-trivial as above",
-            cases: ctx.tier.pick(300, 3000),
+            cases: ctx.tier.pick(800, 8000),
             strategy: Box::new(|| cli_strategy().boxed()),
             eval: Box::new(eval_cli),
         }),
